@@ -4,6 +4,8 @@ import (
 	"context"
 	"errors"
 	"fmt"
+	"os"
+	"runtime/pprof"
 	"sync"
 	"time"
 
@@ -28,6 +30,7 @@ type Cfg struct {
 	DLQSize    int    `json:"dlq_size"`
 	DLQThr     int    `json:"dlq_thr"`
 	Proc       bool   `json:"proc"`
+	Workers    int    `json:"workers,omitempty"` // processor workers (>1: v1 wraps the processor in a ParallelNode)
 }
 
 // Step is one step of the environment schedule.
@@ -53,13 +56,19 @@ func (s *statusWrap) Get(ctx context.Context, id string) (*pipeline.Instance, er
 }
 func (s *statusWrap) List(ctx context.Context) map[string]*pipeline.Instance { return s.ps.List(ctx) }
 func (s *statusWrap) UpdateStatus(ctx context.Context, id string, st pipeline.Status, msg string) error {
+	// the write and its log entry are one atomic step with respect to every other log entry
+	s.w.mu.Lock()
 	err := s.ps.UpdateStatus(ctx, id, st, msg)
 	if err != nil {
-		s.w.Log("sterr", st.String(), "", 0)
+		s.w.logLocked("sterr", st.String(), "", 0)
+		s.w.mu.Unlock()
 		return err
 	}
-	s.w.Log("st", st.String(), "", 0)
-	if out := s.w.Arrive("st." + st.String()); out == "err" {
+	s.w.logLocked("st", st.String(), "", 0)
+	s.w.mu.Unlock()
+	out := s.w.Arrive("st." + st.String())
+	s.w.Log("stret", st.String(), "", 0)
+	if out == "err" {
 		return errors.New("injected: status write failed after becoming visible")
 	}
 	return nil
@@ -132,7 +141,7 @@ func NewSys(cfg Cfg) (*Sys, error) {
 	}
 	if cfg.Proc {
 		if _, err := prs.Create(ctx, "proc", "fake-proc", processor.Parent{ID: pl.ID, Type: processor.ParentTypePipeline},
-			processor.Config{Settings: map[string]string{}, Workers: 1}, processor.ProvisionTypeAPI, ""); err != nil {
+			processor.Config{Settings: map[string]string{}, Workers: max(1, cfg.Workers)}, processor.ProvisionTypeAPI, ""); err != nil {
 			return nil, err
 		}
 		if _, err := ps.AddProcessor(ctx, pl.ID, "proc"); err != nil {
@@ -215,6 +224,19 @@ func (s *Sys) Call(name string, wait time.Duration) int {
 				return -1
 			}
 		}
+	} else {
+		// at most two overlapping WaitPipeline calls (the acceptor's state set grows with each)
+		nw := 0
+		for _, n := range s.pending {
+			if n == "wait" {
+				nw++
+			}
+		}
+		if nw >= 2 {
+			s.mu.Unlock()
+			s.W.Log("skip", name, "", 0)
+			return -1
+		}
 	}
 	s.nextCall++
 	id := s.nextCall
@@ -233,20 +255,41 @@ func (s *Sys) Call(name string, wait time.Duration) int {
 			}()
 			err = s.doCall(name)
 		}()
+		// log first, then retire the call: nothing may be issued between a return and its log entry
+		s.W.LogErr("ret", name, Class(err), id, err)
 		s.mu.Lock()
 		delete(s.pending, id)
 		s.mu.Unlock()
-		s.W.LogErr("ret", name, Class(err), id, err)
 	}()
-	s.W.WaitFor(wait, func(l []Ev) bool {
+	if s.W.WaitFor(wait, func(l []Ev) bool {
 		for i := len(l) - 1; i >= 0; i-- {
 			if l[i].K == "ret" && l[i].N == id {
 				return true
 			}
 		}
 		return false
-	})
+	}) {
+		for s.isPending(id) { // the goroutine retires the call right after logging its return
+			time.Sleep(10 * time.Microsecond)
+		}
+	}
 	return id
+}
+
+// DumpOnWedge makes a wedge write all goroutine stacks to stderr (probe mode, for people).
+var DumpOnWedge = false
+
+func dumpStacks() {
+	if DumpOnWedge {
+		_ = pprof.Lookup("goroutine").WriteTo(os.Stderr, 2)
+	}
+}
+
+func (s *Sys) isPending(id int) bool {
+	s.mu.Lock()
+	defer s.mu.Unlock()
+	_, ok := s.pending[id]
+	return ok
 }
 
 // Pending returns the names of the calls that have not returned.
@@ -355,16 +398,28 @@ func (s *Sys) Run(steps []Step, deadline time.Duration) []Ev {
 	return s.W.Events()
 }
 
-// waitCallsReturned waits until every pending call returned.
-func (s *Sys) waitCallsReturned(d time.Duration) bool {
+// pendingCalls returns the pending calls, with or without the WaitPipeline calls.
+func (s *Sys) pendingCalls(withWaits bool) []string {
+	var out []string
+	for _, n := range s.Pending() {
+		if n == "wait" && !withWaits {
+			continue
+		}
+		out = append(out, n)
+	}
+	return out
+}
+
+// waitCallsReturned waits until every pending call (optionally also the waits) returned.
+func (s *Sys) waitCallsReturned(d time.Duration, withWaits bool) bool {
 	end := time.Now().Add(d)
 	for time.Now().Before(end) {
-		if len(s.Pending()) == 0 {
+		if len(s.pendingCalls(withWaits)) == 0 {
 			return true
 		}
 		time.Sleep(200 * time.Microsecond)
 	}
-	return len(s.Pending()) == 0
+	return len(s.pendingCalls(withWaits)) == 0
 }
 
 func (s *Sys) finish(deadline time.Duration) {
@@ -372,8 +427,8 @@ func (s *Sys) finish(deadline time.Duration) {
 	// phase "free": all gates open, no more injected failures
 	w.Log("phase", "free", "", 0)
 	w.FreeRun()
-	if !s.waitCallsReturned(deadline) {
-		for _, n := range s.Pending() {
+	if !s.waitCallsReturned(deadline, false) {
+		for _, n := range s.pendingCalls(false) {
 			w.Log("wedge", "call:"+n, "", 0)
 		}
 		w.Kill()
@@ -390,16 +445,24 @@ func (s *Sys) finish(deadline time.Duration) {
 			return
 		}
 	}
+	// the pipeline is down: every WaitPipeline call must have returned by now
+	if !s.waitCallsReturned(deadline, true) {
+		for _, n := range s.pendingCalls(true) {
+			w.Log("wedge", "call:"+n, "", 0)
+		}
+		w.Kill()
+		return
+	}
 	// phase "restart": once it is down, it must be possible to start and stop it again
 	w.Log("phase", "restart", "", 0)
 	if s.Cfg.Engine == "v2" && count(w.Events(), "call", "stopall") > 0 {
 		// v2's shutdown flag is process wide and permanent: no restart after a shutdown
+		w.Log("phase", "end", s.Status(), openRuns(w.Events()))
 		w.Kill()
 		return
 	}
-	id := s.Call("start", deadline)
-	_ = id
-	if len(s.Pending()) > 0 {
+	s.Call("start", deadline)
+	if len(s.pendingCalls(false)) > 0 {
 		w.Log("wedge", "call:start", "", 0)
 		w.Kill()
 		return
@@ -438,26 +501,39 @@ func (s *Sys) settle(deadline time.Duration) {
 	}
 }
 
-// stopAndSettle issues a graceful stop followed by a wait and reports whether
-// the pipeline came down before the deadline.
+// stopAndSettle brings the pipeline down with user stops and reports whether it came down before
+// the deadline. A stop that fails (the run was already going down) or that is followed by a recovery
+// restart is repeated: only a stop call that never returns, or a pipeline that is still up when the
+// deadline has passed, is a wedge.
 func (s *Sys) stopAndSettle(deadline time.Duration) bool {
 	w := s.W
-	s.Call("stop", deadline)
-	if len(s.Pending()) > 0 {
-		w.Log("wedge", "call:stop", "", 0)
-		return false
+	end := time.Now().Add(deadline)
+	down := func(l []Ev) bool {
+		st := lastStatus(l)
+		return st != "Running" && st != "Recovering" && openRuns(l) <= 0
 	}
-	s.Call("wait", deadline)
-	if len(s.Pending()) > 0 {
+	for {
+		left := time.Until(end)
+		if left <= 0 {
+			w.Log("wedge", "run", s.Status(), openRuns(w.Events()))
+			dumpStacks()
+			return false
+		}
+		if id := s.Call("stop", left); id >= 0 && s.isPending(id) {
+			w.Log("wedge", "call:stop", "", 0)
+			return false
+		}
+		step := 300 * time.Millisecond
+		if left < step {
+			step = left
+		}
+		if w.WaitFor(step, down) {
+			break
+		}
+	}
+	if id := s.Call("wait", time.Until(end)+time.Second); id >= 0 && s.isPending(id) {
 		w.Log("wedge", "call:wait", "", 0)
 		return false
 	}
-	ok := w.WaitFor(deadline, func(l []Ev) bool {
-		st := lastStatus(l)
-		return st != "Running" && st != "Recovering" && openRuns(l) <= 0
-	})
-	if !ok {
-		w.Log("wedge", "run", s.Status(), openRuns(w.Events()))
-	}
-	return ok
+	return true
 }
